@@ -42,7 +42,7 @@ PROBES = ['sixth-rejection', 'begin-out-of-turn', 'no-nul', 'line-too-long', 'au
           'cookie-accepted', 'cookie-wrong-hash-rejected', 'external-accepted',
           'anonymous-accepted', 'challenge-issued', 'cut-between-cr-and-lf',
           'bytes-after-begin-same-read', 'keyring-created', 'keyring-refused',
-          'overlapping-cookie-exchanges', 'cookie-exchange-after-others']
+          'overlapping-cookie-exchanges', 'cookie-exchange-after-others', 'cookie-exchange-abandoned-earlier']
 COMPONENTS = {
     'real': ['txdbus.bus.BusProtocol / txdbus.protocol.BasicDBusProtocol (server role)',
              'txdbus.authentication.BusAuthenticator (tracing subclass on handleAuthMessage)',
@@ -512,6 +512,16 @@ def scenario(ctx):
             others_sched = Scheduler(ctx, allow_stall=False)
             others_sched.run(120)
             others_sched.drain(100)
+            if ds.flag(0.5):
+                # the peer that never answered goes away mid-exchange, and time passes before
+                # the peer under test shows up (cookies age; ids may be handed out again)
+                sim.probe('cookie-exchange-abandoned-earlier')
+                if ds.flag(0.5):
+                    o.transport.loseConnection()
+                else:
+                    cj.reset()
+                others_sched.drain(100)
+                sim.advance(ds.pick([1, 29, 31, 45, 3600]))
         conn.attach(peer, proto, a_first=False)
         if kind == 'COOKIE' and not crowd and ds.flag(0.5):
             # a second peer of the same bus starts a cookie exchange of its own and abandons it
